@@ -1042,6 +1042,22 @@ func (e fixEvaluator) ToCoeffs(res map[int]*rlwe.Ciphertext, index int) {
 	e.r.INTT(res[index].Value[1], res[index].Value[1])
 }
 
+// FIELDNORM control: the raw field is stored after its effective value was computed
+type boxLit struct {
+	Kind   int
+	Angles int
+}
+
+func effectiveBox(lit boxLit) (res boxLit) {
+	angles := lit.Angles
+	if lit.Kind == 2 {
+		angles = 0
+	}
+	res.Kind = lit.Kind + angles
+	res.Angles = lit.Angles
+	return
+}
+
 // ADVFWD control: the wrapper halves the forwarded count
 type wrapParams struct{ rows int }
 
